@@ -130,7 +130,30 @@ def load_baseline(here):
     return {}
 
 
-def run_property(prop, tier, repo, here, targets=None, procs=None, only=None):
+def run_property(prop, tier, repo, here, targets=None, procs=None, only=None, retry=True):
+    """First pass with the tier's budgets; obligations left undecided get one more pass with larger budgets (so that a busy
+    machine does not flip verdicts)."""
+    r = _run_property(prop, tier, repo, here, targets, procs, only)
+    if r is None or not retry or only is not None:
+        return r
+    und = {o["id"] for o in r["obligations"] if o["status"] == "undecided" and o.get("kind") not in ("unsupported", "missing")}
+    if not und:
+        return r
+    specs = _load(here); reg = specs.registry()
+    quals = sorted({q for q in (targets or specs.PROPERTIES[prop]["targets"])
+                    if any(o["id"] in und and o["target"] == reg.contracts[q].target + ("@" + reg.contracts[q].variant if getattr(reg.contracts[q], "variant", None) else "") for o in r["obligations"])})
+    again = _run_property(prop, tier, repo, here, quals, procs, und)
+    better = {o["id"]: o for o in again["obligations"]}
+    for i, o in enumerate(r["obligations"]):
+        if o["id"] in better and o["status"] == "undecided":
+            better[o["id"]]["in_baseline"] = o.get("in_baseline"); better[o["id"]]["retried"] = True
+            r["obligations"][i] = better[o["id"]]
+    r["faults"].extend(f for f in again["faults"] if f not in r["faults"])
+    r["retried"] = len(und)
+    return r
+
+
+def _run_property(prop, tier, repo, here, targets=None, procs=None, only=None):
     specs = _load(here)
     reg = specs.registry()
     pdef = specs.PROPERTIES.get(prop)
